@@ -438,7 +438,10 @@ def finish(prop, tier, seed, level, res, rule, t0, floor=1, assumptions=None, ex
         'violations': len(unlisted),
     }
     os.makedirs(os.path.join(VERIF, 'evidence'), exist_ok=True)
-    with open(os.path.join(VERIF, 'evidence', prop + '.json'), 'w') as f:
+    evpath = os.path.join(VERIF, 'evidence', prop + '.json')
+    if os.environ.get('VERIF_NO_EVIDENCE'):
+        evpath = os.devnull     # mutant trials must not overwrite the evidence of the real tree
+    with open(evpath, 'w') as f:
         json.dump(ev, f, indent=1, sort_keys=True, default=str)
         f.write('\n')
     for key, (f, vs) in sorted(known.items()):
